@@ -3,5 +3,6 @@ pub mod obs;
 pub mod ops;
 pub mod report;
 pub mod seeds;
+pub mod hist;
 pub mod xlsxutil;
 pub mod props;
